@@ -86,12 +86,94 @@ def reach_self_calls(repo, cls, start, limit=60):
     return seen
 
 
+def ping_section_exec(repo, iq, name):
+    """abstract execution of the iq layer's `name`(id) twice on one layer object -> (acquisitions of the ping lock,
+    effects seen while it was held, times held at the end) or None when the execution cannot be followed"""
+    from ..absint import Interp, _Raise, flat_effects, NeedAtom, Budget, DomainGrew
+    from ..layers import LayerRunner
+    runner = LayerRunner(repo)
+    it = Interp(repo, {}, {}, hooks=runner.hooks())
+    it.layer_base = runner.base
+    try:
+        layer = runner.make_layer(it, iq)
+        lk = layer[1].fields.get("_pingQueueLock")
+        if lk is None or lk[0] != "ext":
+            return None
+        it.effects[:] = []
+        for ident in ("ping-1", "ping-2"):
+            try:
+                it.method_call(layer, name, [("c", ident)], {}, {"@module": iq.module, "@owner": iq}, 0, None)
+            except _Raise:
+                pass
+    except (NeedAtom, Budget, DomainGrew):
+        return None
+    held, taken, bad = 0, 0, []
+
+    def is_lock(v):
+        return isinstance(v, tuple) and v[:2] == lk[:2] and v[2] is lk[2]
+    for e in flat_effects(it.effects):
+        if e[0] == "CALL" and len(e) > 3 and is_lock(e[3]):
+            if e[1].endswith((".acquire", ".__enter__")):
+                held += 1
+                taken += 1
+            elif e[1].endswith((".release", ".__exit__")):
+                held -= 1
+            continue
+        if e[0] in ("ENTER", "EXIT") and is_lock(e[1]):
+            held += 1 if e[0] == "ENTER" else -1
+            taken += 1 if e[0] == "ENTER" else 0
+            continue
+        if held > 0 and e[0] in ("CALL", "UP", "DOWN", "EMIT", "BCAST", "ENTER"):
+            if e[0] == "CALL" and ("logger" in e[1] or ".debug" in e[1] or ".info" in e[1]):
+                continue
+            bad.append("%s %s" % (e[0], e[1] if isinstance(e[1], str) else ""))
+    return taken, bad, held
+
+
+def _enclosing_method(mod, node):
+    """(class name, method name) whose body contains `node` (by position), or None"""
+    for c in mod.classes.values():
+        for name, fn in c.methods.items():
+            if fn.lineno <= node.lineno <= (fn.end_lineno or fn.lineno) and any(n is node for n in ast.walk(fn)):
+                return (c.name, name)
+    return None
+
+
 def rule_layer_lock(ctx, rule):
     repo = ctx.repo
     # the per-layer lock belongs to toLower: it is not re-entrant, so a layer method that takes it and then sends (every
     # send goes through toLower of the same layer) blocks on itself, with the lock held for ever after
     base_l = repo.cls(LAYERS, "YowLayer")
     n_lock = 0
+    # a helper of the base class that only toLower uses (a lock-holding context manager around the hand-over, an
+    # acquire/release pair split into helpers) is part of toLower: C11.hoh executes toLower through it and judges the
+    # critical section there.  "Only toLower": no other call or reference to the name anywhere in the package.
+    part_of_tolower = {"toLower"}
+    wanted = set()
+    for hname in base_l.methods:
+        wanted.add(hname)
+        if hname.startswith("_YowLayer__"):
+            wanted.add(hname[len("_YowLayer"):])
+    index = {}
+    for m2 in repo.modules.values():
+        hits = [n2 for n2 in ast.walk(m2.tree) if (isinstance(n2, ast.Attribute) and n2.attr in wanted) or
+                (isinstance(n2, ast.Constant) and isinstance(n2.value, str) and n2.value in wanted)]
+        for n2 in hits:
+            if isinstance(n2, ast.Attribute):
+                index.setdefault(n2.attr, set()).add((m2.relpath, _enclosing_method(m2, n2)))
+            else:
+                index.setdefault(n2.value, set()).add((m2.relpath, "<string>"))
+    grew = True
+    while grew:
+        grew = False
+        for hname in base_l.methods:
+            if hname in part_of_tolower or hname.startswith("__") and hname.endswith("__"):
+                continue
+            mangled = hname[len("_YowLayer"):] if hname.startswith("_YowLayer__") else hname
+            users = index.get(hname, set()) | index.get(mangled, set())
+            if users and all(u[0] == LAYERS and u[1] in [("YowLayer", p_) for p_ in part_of_tolower] for u in users):
+                part_of_tolower.add(hname)
+                grew = True
     for m in sorted(repo.modules.values(), key=lambda m: m.relpath):
         if "/demos/" in m.relpath:
             continue
@@ -99,7 +181,7 @@ def rule_layer_lock(ctx, rule):
             if base_l not in repo.mro(c):
                 continue
             for name, fn in sorted(c.methods.items()):
-                if c is base_l and name == "toLower":
+                if c is base_l and name in part_of_tolower:
                     continue
                 uses = [x for x in ast.walk(fn) if (isinstance(x, ast.With) and any(unparse(i.context_expr) == "self.lock" for i in x.items)) or
                         (isinstance(x, ast.Call) and isinstance(x.func, ast.Attribute) and x.func.attr == "acquire" and unparse(x.func.value) == "self.lock")]
@@ -361,6 +443,17 @@ def run(ctx):
     for name in ("gotPong", "waitPong"):
         fn = iq.methods.get(name)
         if fn is None:
+            continue
+        ex = ping_section_exec(repo, iq, name)
+        if ex is not None:
+            # decided by executing the method (twice in a row, with one ping already waiting the second time): every
+            # effect observed between taking and releasing the ping lock is looked at, wherever the lock is taken
+            taken, bad, end = ex
+            ctx.check("C12.order", taken > 0 and not bad and end == 0, where(iq.relpath, "YowIqProtocolLayer." + name, fn.lineno), "critical section of _pingQueueLock in " + name,
+                      ("the ping queue is touched without the ping lock" if not taken else
+                       "the ping lock is still held %s time(s) when %s returns" % (end, name) if end and not bad else
+                       "a call (%s) is made while the ping lock is held: it can raise or wait with the lock held" % ", ".join(bad[:2])),
+                      "only dictionary operations under the ping lock (%d acquisition(s) executed)" % taken)
             continue
         g = CFG(fn)
         acq = [n for n in g.live if n.kind == "stmt" and unparse(n.stmt) == "self._pingQueueLock.acquire()"] + [n for n in g.live if n.kind == "with_enter" and "_pingQueueLock" in unparse(n.stmt.items[0].context_expr)]
